@@ -34,7 +34,11 @@ Fd(id, t, n) == [id |-> id, req |-> "default", t |-> t, name |-> n, dflt |-> NoD
 TreeStructs == <<[kind |-> "struct", name |-> "left.L", fields |-> <<Fd(1, R("a/common.Item"), "it"), Fd(2, B("i64"), "n"), Fd(3, [k |-> "list", v |-> R("a/common.Item")], "its")>>],
                  [kind |-> "struct", name |-> "right.Rt", fields |-> <<Fd(1, R("b/common.Item"), "it"), Fd(2, B("i32"), "n")>>],
                  [kind |-> "struct", name |-> "a/common.Item", fields |-> <<Fd(1, B("i64"), "id"), Fd(2, B("double"), "w")>>],
-                 [kind |-> "struct", name |-> "b/common.Item", fields |-> <<Fd(1, B("i32"), "id"), Fd(2, B("i16"), "w")>>]>>
+                 [kind |-> "struct", name |-> "b/common.Item", fields |-> <<Fd(1, B("i32"), "id"), Fd(2, B("i16"), "w")>>],
+                 [kind |-> "exception", name |-> "a/common.Oops", fields |-> <<Fd(1, B("string"), "m")>>]>>
+\* typedefs of the fixed files, by the name the main file uses
+FixedTypedefs == <<[name |-> "inc.Thing", t |-> B("i64")], [name |-> "inc.ExtAlias", t |-> R("inc.ExtE")], [name |-> "inc.ExtS", t |-> R("inc.Ext")],
+                   [name |-> "inc.ExtL", t |-> [k |-> "list", v |-> R("inc.ExtAlias")]]>>
 IncEnums == <<[name |-> "inc.ExtE", numbered |-> <<[name |-> "P", value |-> 0], [name |-> "Q", value |-> 1]>>]>>
 
 \* ---- args / result structs of the service methods (compiler/generator/base.go) ----
@@ -48,7 +52,9 @@ ResultOf(sv, m) ==
 Synth(P) == LET per(sv) == LET ms == sv.methods IN
                            FoldLeft(LAMBDA acc, m : acc \o <<ArgsOf(sv, m)>> \o (IF m.oneway THEN <<>> ELSE <<ResultOf(sv, m)>>), <<>>, ms)
             IN FoldLeft(LAMBDA acc, sv : acc \o per(sv), <<>>, P.services)
-AllStructs(P) == P.structs \o IncStructs \o TreeStructs \o Synth(P)
+\* members of a union are optional whatever requiredness is written on them
+AsParsed(st) == IF st.kind = "union" THEN [st EXCEPT !.fields = [i \in Idx(st.fields) |-> [st.fields[i] EXCEPT !.req = "optional"]]] ELSE st
+AllStructs(P) == [i \in Idx(P.structs) |-> AsParsed(P.structs[i])] \o IncStructs \o TreeStructs \o Synth(P)
 AllEnums(P) == P.enums \o IncEnums
 StructNamed(P, n) == LET ss == AllStructs(P) IN ss[CHOOSE i \in Idx(ss) : ss[i].name = n]
 IsStructName(P, n) == \E i \in Idx(AllStructs(P)) : AllStructs(P)[i].name = n
@@ -58,8 +64,9 @@ EnumNamed(P, n) == LET es == AllEnums(P) IN es[CHOOSE i \in Idx(es) : es[i].name
 \* ---- resolution of typedef chains ----
 RECURSIVE Resolve(_, _)
 Resolve(P, t) ==
-  IF t.k = "ref" /\ \E i \in Idx(P.typedefs) : P.typedefs[i].name = t.n
-  THEN Resolve(P, P.typedefs[CHOOSE i \in Idx(P.typedefs) : P.typedefs[i].name = t.n].t)
+  LET tds == P.typedefs \o FixedTypedefs IN
+  IF t.k = "ref" /\ \E i \in Idx(tds) : tds[i].name = t.n
+  THEN Resolve(P, tds[CHOOSE i \in Idx(tds) : tds[i].name = t.n].t)
   ELSE t
 Kind(P, t) == LET u == Resolve(P, t) IN
   CASE u.k = "base" -> u.n
